@@ -1,10 +1,25 @@
 (* C10 — wire codec: s-expression <-> cases / observations. *)
 (* DISPATCH 1000 c10_model *)
 (* DISPATCH 1001 c10_holds *)
+(* DISPATCH 1002 c10_mech_observed *)
 From Coq Require Import List ZArith NArith Bool.
 From MV Require Import Common.Sx C10.Model C10.Spec C10.Check C10.Roots.
 Import ListNotations.
 Local Open Scope N_scope.
+
+Fixpoint sx_eqb (a b : sx) : bool :=
+  match a, b with
+  | A x, A y => Z.eqb x y
+  | B x, B y => list_eqb N.eqb x y
+  | L x, L y =>
+      (fix go (l1 l2 : list sx) : bool :=
+         match l1, l2 with
+         | [], [] => true
+         | p :: l1', q :: l2' => sx_eqb p q && go l1' l2'
+         | _, _ => false
+         end) x y
+  | _, _ => false
+  end.
 
 (* ---------------------------------------------------------------- decoding *)
 (* shape on the wire: (ns nl nd nh): the last nh distribution fields are bucketed histograms whose
@@ -318,6 +333,193 @@ Definition c10_check_worker_det (case obs : sx) : bool :=
   Nat.eqb (sx_nat (sx_nth obs 1)) (count_flush_reqs script) &&
   sx_bool (sx_nth obs 2).
 
+(* ================================================================ cases on real threads *)
+(* The interleaving is chosen by the OS; the harness OBSERVES the linearisation (the order of calls on
+   the inner sink, recorded on the worker thread resp. under the mutex).  Entries are identified by their
+   first keep-last field; id / 2^20 is the index of the thread that produced the entry. *)
+Definition tid_of (id : N) : N := id / 1048576.
+Definition mark : N := 18446744073709551615.     (* a flush / close in the observed log *)
+
+(* what a thread's script sends (worker) or merges (mutex), in program order: Some e, or None for an
+   awaited flush request; guards contribute the last value written, at their drop; guards still alive at
+   the end of the script are dropped in creation order; sleeps and closes contribute nothing *)
+Fixpoint thread_events (gs : list (option entry)) (script : list sx) : list (option entry) :=
+  match script with
+  | [] => flat_map (fun g => match g with Some v => [Some v] | None => [] end) gs
+  | x :: r =>
+      match sx_tag x with
+      | 0%Z => Some (dec_entry (sx_arg x 0)) :: thread_events gs r
+      | 1%Z => None :: thread_events gs r
+      | 4%Z => thread_events (gs ++ [Some (dec_entry (sx_arg x 0))]) r
+      | 5%Z => let g := sx_nat (sx_arg x 0) in
+               match nth_error gs g with
+               | Some (Some _) => thread_events (set_nth gs g (Some (dec_entry (sx_arg x 1)))) r
+               | _ => thread_events gs r
+               end
+      | 6%Z => let g := sx_nat (sx_arg x 0) in
+               match nth_error gs g with
+               | Some (Some v) => Some v :: thread_events (set_nth gs g None) r
+               | _ => thread_events gs r
+               end
+      | _ => thread_events gs r
+      end
+  end.
+Definition only_entries (l : list (option entry)) : list entry :=
+  flat_map (fun o => match o with Some e => [e] | None => [] end) l.
+
+(* every entry value occurring in a script (sends, guard creations, guard mutations) *)
+Definition script_entries (script : list sx) : list entry :=
+  flat_map (fun x => match sx_tag x with
+                     | 0%Z | 4%Z => [dec_entry (sx_arg x 0)]
+                     | 5%Z => [dec_entry (sx_arg x 1)]
+                     | _ => []
+                     end) script.
+Fixpoint lookup_entry (id : N) (tab : list entry) : option entry :=
+  match tab with
+  | [] => None
+  | e :: r => if raw_id e =? id then Some e else lookup_entry id r
+  end.
+(* observed log -> operations; None when the log mentions an entry nobody sent *)
+Fixpoint log_ops (tab : list entry) (log : list N) : option (list op) :=
+  match log with
+  | [] => Some []
+  | i :: r =>
+      match log_ops tab r with
+      | None => None
+      | Some ops =>
+          if i =? mark then Some (OFlush :: ops)
+          else match lookup_entry i tab with Some e => Some (OMerge e :: ops) | None => None end
+      end
+  end.
+
+(* per-thread FIFO: the thread's entries appear in the log in program order, all of them, nothing else *)
+Fixpoint threads_fifo (t : N) (scripts : list sx) (log : list N) : bool :=
+  match scripts with
+  | [] => true
+  | sc :: r =>
+      list_eqb N.eqb (filter (fun i => negb (i =? mark) && (tid_of i =? t)) log)
+                     (map raw_id (only_entries (thread_events [] (sx_list sc)))) &&
+      threads_fifo (t + 1) r log
+  end.
+Definition log_tids_ok (n : N) (log : list N) : bool :=
+  forallb (fun i => (i =? mark) || (tid_of i <? n)) log.
+
+(* flush barrier, observed: when the j-th awaited flush of a thread returned, the log (of length n_j at
+   that moment) already contained the thread's last earlier entry FOLLOWED by a flush *)
+Fixpoint after_last (id : N) (l : list N) (acc : option (list N)) : option (list N) :=
+  match l with
+  | [] => acc
+  | x :: r => after_last id r (if x =? id then Some r else acc)
+  end.
+Fixpoint barrier_ok (strict : bool) (evs : list (option entry)) (last_sent : option N) (snaps : list sx) (log : list N) : bool :=
+  match evs with
+  | [] => match snaps with [] => true | _ => false end
+  | Some e :: r => barrier_ok strict r (Some (raw_id e)) snaps log
+  | None :: r =>
+      match snaps with
+      | [] => false
+      | n :: snaps' =>
+          let pre := firstn (sx_nat n) log in
+          (match last_sent with
+           | Some id => match after_last id pre None with
+                        | Some rest => existsb (N.eqb mark) rest
+                        | None => false
+                        end
+           | None => if strict then existsb (N.eqb mark) pre else true
+           end) && barrier_ok strict r last_sent snaps' log
+      end
+  end.
+Fixpoint barriers_ok (strict : bool) (scripts snaps : list sx) (log : list N) : bool :=
+  match scripts, snaps with
+  | [], [] => true
+  | sc :: r, sn :: r' =>
+      barrier_ok strict (thread_events [] (sx_list sc)) None (sx_list sn) log && barriers_ok strict r r' log
+  | _, _ => false
+  end.
+
+Definition ends_with_mark (log : list N) : bool :=
+  match rev log with [] => true | x :: _ => x =? mark end.
+
+(* case (4 shape tree mode (script ...)); observed (log leaves (snaps ...) exited) *)
+Definition worker_thr_parts (case obs : sx) :=
+  let w := dec_shape (sx_arg case 0) in
+  let t := dec_tree 64 (sx_arg case 1) in
+  let mode := sx_n (sx_arg case 2) in
+  let scripts := sx_list (sx_arg case 3) in
+  let log := map sx_n (sx_list (sx_nth obs 0)) in
+  let tab := flat_map (fun sc => script_entries (sx_list sc)) scripts in
+  (w, t, mode, scripts, log, log_ops tab log).
+
+(* predicate: FIFO per producer, nothing invented, barrier, exit with everything emitted, and the
+   emitted batches are what Spec.v promises for the epochs of the observed history *)
+Definition c10_check_worker_thr (case obs : sx) : bool :=
+  let '(w, t, mode, scripts, log, oops) := worker_thr_parts case obs in
+  match oops with
+  | None => false
+  | Some ops =>
+      let eps := complete_epochs ops in
+      let eps' := if mode =? 0 then eps else filter nonempty_epoch eps in
+      let rt := check_tree w eps' t (sx_list (sx_nth obs 1)) in
+      fst rt && (match snd rt with [] => true | _ => false end) &&
+      threads_fifo 0 scripts log && log_tids_ok (N.of_nat (length scripts)) log &&
+      barriers_ok (mode =? 0) scripts (sx_list (sx_nth obs 2)) log &&
+      sx_bool (sx_nth obs 3) && ends_with_mark log &&
+      match open_epoch ops with [] => true | _ => false end
+  end.
+
+(* mechanism: the inner tree of the model, run on the observed history, emits the observed batches *)
+Definition c10_mech_worker_thr (case obs : sx) : bool :=
+  let '(w, t, mode, scripts, log, oops) := worker_thr_parts case obs in
+  match oops with
+  | None => false
+  | Some ops =>
+      let leaves := enc_tree w (sink_run model_hash (w_sh w) t ops) in
+      let leaves' := if mode =? 0 then leaves else map drop_empty_batches leaves in
+      sx_eqb (L leaves') (sx_nth obs 1)
+  end.
+
+(* case (2 shape (script ...)); observed (log (closed aggregate ...)): MutexSink<Aggregate<T>>, closes by
+   any thread; the log ends with the final close *)
+Definition mutex_parts (case obs : sx) :=
+  let w := dec_shape (sx_arg case 0) in
+  let scripts := sx_list (sx_arg case 1) in
+  let log := map sx_n (sx_list (sx_nth obs 0)) in
+  let tab := flat_map (fun sc => script_entries (sx_list sc)) scripts in
+  (w, scripts, log, log_ops tab log).
+
+Fixpoint check_closes (w : wshape) (eps : list (list entry)) (out : list sx) : bool :=
+  match eps, out with
+  | [], [] => true
+  | ep :: eps', o :: out' =>
+      let a := dec_agg w o in
+      totals_exact o && agg_okb (exact_shape w) ep (snd (fst a)) && hist_okb w ep (snd a) && check_closes w eps' out'
+  | _, _ => false
+  end.
+
+Definition c10_check_mutex (case obs : sx) : bool :=
+  let '(w, scripts, log, oops) := mutex_parts case obs in
+  match oops with
+  | None => false
+  | Some ops =>
+      check_closes w (complete_epochs ops) (sx_list (sx_nth obs 1)) &&
+      threads_fifo 0 scripts log && log_tids_ok (N.of_nat (length scripts)) log &&
+      ends_with_mark log
+  end.
+
+Definition c10_mech_mutex (case obs : sx) : bool :=
+  let '(w, scripts, log, oops) := mutex_parts case obs in
+  match oops with
+  | None => false
+  | Some ops =>
+      let ls := map (fun o => match o with OMerge e => MMerge e | OFlush => MClose end) ops in
+      match mrun (w_sh w) (m_init (w_sh w)) ls with
+      | Some s => sx_eqb (L (map (fun c => enc_agg w (([], 0), c)) (m_closed s))) (sx_nth obs 1)
+      | None => false
+      end
+  end.
+
+(* threaded cases (tags 2, 4) have no schedule-independent output: they are compared through c10_holds and
+   c10_mech_observed only (suite "-thr") *)
 Definition c10_model (x : sx) : sx :=
   match sx_tag x with
   | 3%Z => c10_worker_det x
@@ -326,6 +528,19 @@ Definition c10_model (x : sx) : sx :=
 
 Definition c10_holds (x : sx) : sx :=
   match sx_tag (sx_nth x 0) with
+  | 2%Z => of_bool (c10_check_mutex (sx_nth x 0) (sx_nth x 1))
+  | 4%Z => of_bool (c10_check_worker_thr (sx_nth x 0) (sx_nth x 1))
   | 3%Z => of_bool (c10_check_worker_det (sx_nth x 0) (sx_nth x 1))
   | _ => c10_check_seq x
+  end.
+
+(* DISPATCH-like second predicate: the mechanism model run on the OBSERVED linearisation of a threaded
+   case reproduces the observed output (cases without threads: compared by c10_model already) *)
+Definition c10_mech_observed (x : sx) : sx :=
+  let case := sx_nth x 0 in
+  let obs := sx_nth x 1 in
+  match sx_tag case with
+  | 2%Z => of_bool (c10_mech_mutex case obs)
+  | 4%Z => of_bool (c10_mech_worker_thr case obs)
+  | _ => of_bool true
   end.
